@@ -1,9 +1,11 @@
-\* all forceable schedules; the monitor (Prop_C18/Prop_C19) never trips on the intended design
+\* forced mode: every forceable schedule; Prop_C18/Prop_C19 = TxMonitor never trips (thorough tier; Emit="end" prints the schedules)
+\* (the check generates its cfgs from families/transactions.py:TIERS; this file mirrors one of them for manual runs:
+\*  tlc -deadlock -config MC_Transactions_forced.cfg Transactions)
 CONSTANTS
   Kinds = {"base", "retry", "timed"}
-  RCs = {0,1,2}
-  RDs = {1,2,3}
-  TOs = {0,1,3}
+  RCs = {0, 1, 2}
+  RDs = {1, 2, 3}
+  TOs = {0, 1, 3}
   MaxOps = 3
   CbMayFail = TRUE
   Devs = {}
